@@ -283,6 +283,12 @@ pub fn order_pairs(rep: &mut Report, thorough: bool) {
         for b in &rs {
             n += 1;
             let want = key(a).cmp(&key(b));
+            // the comparison operators (PartialOrd) agree with the total order, and equality with both
+            if (a.partial_cmp(b) != Some(a.cmp(b)) || (a > b) != (a.cmp(b) == std::cmp::Ordering::Greater) || (a == b) != (a.cmp(b) == std::cmp::Ordering::Equal)) && bad < 2 {
+                bad += 1;
+                rep.violations.push(Violation { property: "C05".into(), signature: "C05:comparison-operators-disagree-with-the-total-order".into(), scenario: "order-pairs".into(), history: vec![],
+                    detail: json!({"input": {"a": a.to_string(), "b": b.to_string()}, "cmp": format!("{:?}", a.cmp(b)), "partial_cmp": format!("{:?}", a.partial_cmp(b)), "gt": a > b, "eq": a == b}) });
+            }
             if a.cmp(b) != want && bad < 2 {
                 bad += 1;
                 rep.violations.push(Violation { property: "C05".into(), signature: "C05:revision-order-differs-from-stated-rule".into(), scenario: "order-pairs".into(), history: vec![],
